@@ -118,3 +118,92 @@ package federation
 //@ ensures [C17] forall n string :: old(has(f.peers, n)) && !has(f.peers, n) ==> T.$gone[n] && S.$sdel[n] && n != f.nodeName
 // and only those did
 //@ ensures [C17] forall n string :: (T.$gone[n] && !old(T.$gone[n])) || (S.$sdel[n] && !old(S.$sdel[n])) ==> old(has(f.peers, n)) && !has(f.peers, n)
+
+// ---------------------------------------------------------------------------
+// C17 — the sender's side: which peers get a message event. A peer's outgoing queue counts what is put on it:
+// $qadds is the number of events added, $lastEv the last one.
+//@ ghost field (queue).qadds int
+//@ ghost field (queue).lastEv *Event
+//@ func (queue).add
+//@ params q, event
+//@ requires event != nil
+//@ modifies ghost(q.$qadds), ghost(q.$lastEv)
+//@ ensures q.$qadds == old(q.$qadds) + 1 && q.$lastEv == event
+
+// every peer has its own queue (nodeJoin creates one per peer)
+//@ spec func peersOK(f *Federation) bool = f.peers != nil && (forall n string :: has(f.peers, n) ==> f.peers[n] != nil && f.peers[n].queue.(type *eventQueue) && f.peers[n].queue.(*eventQueue) != nil) && (forall a string, b string :: has(f.peers, a) && has(f.peers, b) && a != b ==> f.peers[a].queue.(*eventQueue) != f.peers[b].queue.(*eventQueue))
+
+//@ func messageToEvent
+//@ props C17
+//@ requires [C17] msg != nil
+// (it writes to the objects it creates and to nothing else)
+//@ modifies allelems(*UserProperty)
+//@ ensures [C17] result != nil && isfresh(result) && result.TopicName == msg.Topic && result.Retained == msg.Retained && result.Qos == uint32(msg.QoS) && result.Payload == msg.Payload
+//@ loop 1 invariant eventMsg != nil && isfresh(eventMsg) && eventMsg.TopicName == msg.Topic && eventMsg.Retained == msg.Retained && eventMsg.Qos == uint32(msg.QoS) && eventMsg.Payload == msg.Payload && msg == old(msg)
+
+// The federation subscription tree reports the matching subscriptions of the other nodes to fn and does nothing else.
+//@ func (*mem.TrieDB).Iterate trusted
+//@ params db, fn, options
+//@ requires fn != nil
+//@ modifies heap
+//@ preserves all(federation.Federation.*), all(federation.peer.*), all(federation.fedSubStore.*), all(gmqtt.Message.*), allmaps(string, *federation.peer), allmaps(string, uint64)
+
+// The broker's own subscription store, seen through server.SubscriptionService: Iterate reports the matching local
+// subscriptions to fn and does nothing else.
+//@ func (server.SubscriptionService).Iterate
+//@ params s, fn, options
+//@ requires fn != nil
+//@ modifies heap
+//@ preserves all(gmqtt.Message.*), all(gmqtt.Subscription.*)
+
+//@ func sendSharedMsg inline
+
+// sendMessage$1 / $2: the functions handed to the two subscription stores. They only collect: the share groups that
+// match (with the nodes that host members) and the nodes with a matching non-shared subscription. No queue is touched.
+//@ func (*Federation).sendMessage$1
+//@ props C17
+//@ requires [C17] sub != nil && sharedList != nil && f != nil
+//@ modifies map(sharedList), allelems(string)
+//@ ensures [C17] result && has(sharedList, fullName(sub)) && len(sharedList[fullName(sub)]) == old(len(sharedList[fullName(sub)])) + 1 && sharedList[fullName(sub)][len(sharedList[fullName(sub)]) - 1] == f.nodeName
+//@ func (*Federation).sendMessage$2
+//@ props C17
+//@ requires [C17] sub != nil && sharedList != nil && nonShared != nil
+//@ modifies map(sharedList), map(nonShared), allelems(string)
+//@ ensures [C17] result
+//@ ensures [C17] sub.ShareName != "" ==> has(sharedList, fullName(sub)) && len(sharedList[fullName(sub)]) == old(len(sharedList[fullName(sub)])) + 1 && sharedList[fullName(sub)][len(sharedList[fullName(sub)]) - 1] == nodeName && (forall k string :: has(nonShared, k) == old(has(nonShared, k)))
+//@ ensures [C17] sub.ShareName == "" ==> has(nonShared, nodeName) && (forall k string :: k != nodeName ==> has(nonShared, k) == old(has(nonShared, k)))
+
+// sendMessage: a retained message goes to every peer, once. Any other message goes, once, to every peer that was
+// chosen for a matching share group (one node per group, round robin; never the local node) or that has a matching
+// non-shared subscription — and to no other peer; no peer gets it twice, whatever the number of groups and
+// subscriptions that match.
+//@ spec func listsOK(m map[string][]string) bool = forall k string :: has(m, k) ==> len(m[k]) > 0
+//@ func (*Federation).sendMessage
+//@ props C17
+//@ requires [C17] f != nil && msg != nil && peersOK(f) && f.localSubStore != nil && f.localSubStore.localStore != nil && f.fedSubStore != nil && f.fedSubStore.TrieDB != nil && f.fedSubStore.sharedSent != nil
+//@ modifies heap, ghostall(queue.$qadds), ghostall(queue.$lastEv)
+//@ waive panic overflow
+// The two stores only call the function they are handed (sendMessage$1, sendMessage$2, sendMessage$3$1 — each under
+// its own contract: they collect names into the two local tables, or set drop / options): whatever else this function
+// holds is kept across those calls, and the collected lists are never empty (each entry is made by an append).
+//@ call SubscriptionService.Iterate#1 preserves all(federation.Federation.*), all(federation.peer.*), all(federation.fedSubStore.*), all(federation.localSubStore.*), allmaps(string, *federation.peer), allmaps(string, uint64), allcells(*federation.Federation), allcells(*gmqtt.Message), allcells(map[string][]string), allcells(map[string]struct{})
+//@ call SubscriptionService.Iterate#1 assume listsOK(sharedList)
+//@ call TrieDB.Iterate#1 preserves all(federation.localSubStore.*), allcells(*federation.Federation), allcells(*gmqtt.Message), allcells(map[string][]string), allcells(map[string]struct{})
+//@ call TrieDB.Iterate#1 assume listsOK(sharedList)
+//@ call sendMessage$3.SubscriptionService.Iterate#2 preserves all(federation.Federation.*), all(federation.peer.*), all(federation.fedSubStore.*), all(federation.localSubStore.*), allmaps(string, *federation.peer), allmaps(string, uint64), allmaps(string, struct{}), allmaps(string, []string), allelems(string), allcells(*federation.Federation), allcells(*gmqtt.Message), allcells(map[string][]string), allcells(map[string]struct{})
+// retained: every peer, once
+//@ loop 1 invariant peersOK(f) && f == old(f) && msg == old(msg) && eventMsg != nil
+//@ loop 1 invariant forall n string :: has(f.peers, n) ==> f.peers[n].queue.$qadds == old(f.peers[n].queue.$qadds) + (visited(1, n) ? 1 : 0)
+// one node per matching share group; a node already served is not served again
+//@ loop sendSharedMsg.1 invariant f != nil && f == old(f) && msg != nil && msg == old(msg) && peersOK(f) && f.localSubStore != nil && f.localSubStore.localStore != nil && fs != nil && fs.sharedSent != nil && sent != nil && sent == old(sent) && sharedList == old(sharedList) && listsOK(sharedList) && !msg.Retained
+//@ loop sendSharedMsg.1 invariant f.peers == old(f.peers) && (forall n string :: has(f.peers, n) == old(has(f.peers, n)) && f.peers[n] == old(f.peers[n]))
+//@ loop sendSharedMsg.1 invariant forall n string :: has(f.peers, n) ==> f.peers[n].queue.$qadds == old(f.peers[n].queue.$qadds) + (has(sent, n) ? 1 : 0)
+// nodes with a matching non-shared subscription, unless served already
+//@ loop 2 invariant f != nil && f == old(f) && msg != nil && msg == old(msg) && peersOK(f) && !msg.Retained
+//@ loop 2 invariant f.peers == old(f.peers) && (forall n string :: has(f.peers, n) == old(has(f.peers, n)) && f.peers[n] == old(f.peers[n]))
+//@ loop 2 invariant forall n string :: has(f.peers, n) ==> f.peers[n].queue.$qadds == old(f.peers[n].queue.$qadds) + ((has(sent, n) || (has(nonShared, n) && visited(2, n))) ? 1 : 0)
+// the set of peers is not changed
+//@ ensures [C17] f.peers == old(f.peers) && (forall n string :: has(f.peers, n) == old(has(f.peers, n)) && f.peers[n] == old(f.peers[n]))
+//@ ensures [C17] msg.Retained ==> (forall n string :: has(f.peers, n) ==> f.peers[n].queue.$qadds == old(f.peers[n].queue.$qadds) + 1)
+//@ ensures [C17] forall n string :: has(f.peers, n) ==> old(f.peers[n].queue.$qadds) <= f.peers[n].queue.$qadds && f.peers[n].queue.$qadds <= old(f.peers[n].queue.$qadds) + 1
+//@ ensures [C17] !msg.Retained ==> (forall n string :: has(f.peers, n) ==> f.peers[n].queue.$qadds == old(f.peers[n].queue.$qadds) + ((has(sent, n) || has(nonShared, n)) ? 1 : 0))
